@@ -1,0 +1,86 @@
+//go:build verif && badger
+
+// Machine-checked contracts for the Badger engine (comment-only; read by /verif/cmd/govc).
+
+package badger
+
+// ---- single-key writes (C01: a write removes the tombstone of the same version, a delete
+// leaves a tombstone; C04: both changes are made inside ONE transaction) ----
+// Ghost: txns = transactions started; setKey/setVal/delKey = arguments of the txn operations.
+
+//@ func BadgerDB.Put
+//@   prop C01 C04
+//@   requires db != nil ==> db.bdp != nil
+//@   modifies *
+//@   safety_off
+//@   ghost txns int = 0
+//@   ghost setKey []byte = nil
+//@   ghost setVal []byte = nil
+//@   ghost delKey []byte = nil
+//@   ghost nset int = 0
+//@   ghost ndel int = 0
+//@   ghostset at "if err := txn.Set(key, v); err != nil {": setKey = key
+//@   ghostset at "if err := txn.Set(key, v); err != nil {": setVal = v
+//@   ghostset at "if err := txn.Set(key, v); err != nil {": nset = nset + 1
+//@   ghostset at "if err := txn.Delete(tombstoneKey); err != nil {": delKey = tombstoneKey
+//@   ghostset at "if err := txn.Delete(tombstoneKey); err != nil {": ndel = ndel + 1
+//@   ghostset at "return txn.Set(key, v)": setKey = key
+//@   ghostset at "return txn.Set(key, v)": setVal = v
+//@   ghostset at "return txn.Set(key, v)": nset = nset + 1
+//@   ensures result == nil ==> txns == 1 && nset == 1 && sameslice(setKey, ctx.ConstructKey(tk)) && sameslice(setVal, v)
+//@   ensures result == nil && ctx.Versioned() ==> ndel == 1 && sameslice(delKey, asiface(ctx, "storage.VersionedCtx").TombstoneKey(tk))
+//@   ensures result == nil && !ctx.Versioned() ==> ndel == 0
+
+//@ func BadgerDB.Delete
+//@   prop C01 C04
+//@   requires db != nil ==> db.bdp != nil
+//@   modifies *
+//@   safety_off
+//@   ghost txns int = 0
+//@   ghost setKey []byte = nil
+//@   ghost delKey []byte = nil
+//@   ghost nset int = 0
+//@   ghost ndel int = 0
+//@   ghostset at "if err := txn.Delete(key); err != nil {": delKey = key
+//@   ghostset at "if err := txn.Delete(key); err != nil {": ndel = ndel + 1
+//@   ghostset at "if err := txn.Set(tombstoneKey, dvid.EmptyValue()); err != nil {": setKey = tombstoneKey
+//@   ghostset at "if err := txn.Set(tombstoneKey, dvid.EmptyValue()); err != nil {": nset = nset + 1
+//@   ghostset at "return txn.Delete(key)": delKey = key
+//@   ghostset at "return txn.Delete(key)": ndel = ndel + 1
+//@   ensures result == nil ==> txns == 1 && ndel == 1 && sameslice(delKey, ctx.ConstructKey(tk))
+//@   ensures result == nil && ctx.Versioned() ==> nset == 1 && sameslice(setKey, asiface(ctx, "storage.VersionedCtx").TombstoneKey(tk))
+//@   ensures result == nil && !ctx.Versioned() ==> nset == 0
+
+// ---- batched writes: the same pairing inside one write batch ----
+
+//@ func goBatch.Put
+//@   prop C01 C04
+//@   safety_off
+//@   modifies *
+//@   ghost setKey []byte = nil
+//@   ghost delKey []byte = nil
+//@   ghost nset int = 0
+//@   ghost ndel int = 0
+//@   ghostset at "batch.WriteBatch.Delete(tombstone)": delKey = tombstone
+//@   ghostset at "batch.WriteBatch.Delete(tombstone)": ndel = ndel + 1
+//@   ghostset at "if err := batch.WriteBatch.Set(key, v); err != nil {": setKey = key
+//@   ghostset at "if err := batch.WriteBatch.Set(key, v); err != nil {": nset = nset + 1
+//@   ensures batch != nil && batch.ctx != nil ==> nset == 1 && sameslice(setKey, batch.ctx.ConstructKey(tk))
+//@   ensures batch != nil && batch.ctx != nil && batch.vctx != nil ==> ndel == 1 && sameslice(delKey, batch.vctx.TombstoneKey(tk))
+//@   ensures batch != nil && batch.ctx != nil && batch.vctx == nil ==> ndel == 0
+
+//@ func goBatch.Delete
+//@   prop C01 C04
+//@   safety_off
+//@   modifies *
+//@   ghost setKey []byte = nil
+//@   ghost delKey []byte = nil
+//@   ghost nset int = 0
+//@   ghost ndel int = 0
+//@   ghostset at "batch.WriteBatch.Set(tombstone, dvid.EmptyValue())": setKey = tombstone
+//@   ghostset at "batch.WriteBatch.Set(tombstone, dvid.EmptyValue())": nset = nset + 1
+//@   ghostset at "if err := batch.WriteBatch.Delete(key); err != nil {": delKey = key
+//@   ghostset at "if err := batch.WriteBatch.Delete(key); err != nil {": ndel = ndel + 1
+//@   ensures batch != nil && batch.ctx != nil ==> ndel == 1 && sameslice(delKey, batch.ctx.ConstructKey(tk))
+//@   ensures batch != nil && batch.ctx != nil && batch.vctx != nil ==> nset == 1 && sameslice(setKey, batch.vctx.TombstoneKey(tk))
+//@   ensures batch != nil && batch.ctx != nil && batch.vctx == nil ==> nset == 0
